@@ -64,14 +64,39 @@ structure Frame (M : Machine) (C : Type) where
 
 It mirrors the one place where the real VM does write the artefact: `callNative` takes a
 `[]reflect.Value` from `fn.argsPool`, overwrites every slot, calls, and puts the slice back
-still holding the arguments of this call. -/
+still holding the arguments of this call. When the native function is started with `go`
+(`go fn.value.Call(args)`) the callee reads the slice *later*, in its own goroutine: the model
+has a `goNative` instruction whose callee is delivered by a later step of the run, and a
+`PutPolicy` saying when the slice goes back to the pool. -/
 
 inductive Instr
   | const (r : Nat) (v : Int)      -- r := v              (OpLoad from Function.Values / immediate)
   | addv (r : Nat)                 -- r := r + input      (OpGetVar of a per-run global)
   | add (r q : Nat)                -- r := r + q
   | native (f : Nat) (r : Nat)     -- r := native_f(r)    (OpCallNative through argsPool)
+  | goNative (f : Nat) (r : Nat)   -- go native_f(r)      (OpGo + OpCallNative: the callee runs later)
+  | join                           -- wait for one started native goroutine (it reads its arguments now)
   | show (r : Nat)                 -- emit r              (OpShow / print)
+deriving Repr, DecidableEq
+
+/-- when the slice handed to `go native_f(args)` returns to the pool -/
+inductive PutPolicy
+  | never        -- the code: on the go path the slice is not put back (the collector frees it)
+  | afterRead    -- an alternative that is also safe: the callee puts it back once it has read it
+  | atGo         -- the defect: put back right after the go statement, while the callee has not run
+deriving Repr, DecidableEq
+
+/-- a started native goroutine that has not read its arguments yet: the function and the
+argument slice it was handed -/
+structure Pending where
+  f : Nat
+  args : List Int
+deriving Repr, DecidableEq
+
+/-- what a run emits: values shown by the code, and what its native goroutines recorded -/
+inductive ToyObs
+  | shown (v : Int)
+  | recorded (f : Nat) (v : Int)
 deriving Repr, DecidableEq
 
 /-- the artefact: code, and per native function the stack of pooled one-slot argument slices
@@ -85,6 +110,7 @@ structure Run where
   pc : Nat
   regs : List Int
   input : Int
+  inflight : List Pending := []
 deriving Repr, DecidableEq
 
 def reg (l : Run) (r : Nat) : Int := l.regs.getD r 0
@@ -107,36 +133,69 @@ def poolPut (pools : List (List (List Int))) (f : Nat) (s : List Int) : List (Li
   | some p => pools.set f (s :: p)
   | none => pools
 
+/-- the slice on top of pool `f` (what the next `Get` returns, and fills) -/
+def poolTop (pools : List (List (List Int))) (f : Nat) : List Int :=
+  match pools[f]? with
+  | some (s :: _) => s
+  | _ => [0]
+
 /-- the argument actually passed: slot 0 of the slice, or 0 for an empty slice -/
 def slot0 (s : List Int) : Int := s.headD 0
 
-/-- overwrite slot 0 (every slot of the real slice is overwritten: generated fact
-`argsPoolFilledOnEveryPath`) -/
-def fill (s : List Int) (v : Int) : List Int :=
-  match s with
-  | [] => [v]
-  | _ :: t => v :: t
+/-- overwrite the slice: every slot of the real slice is overwritten (generated fact
+`argsPoolFilledOnEveryPath`); the toy's slices have one slot, so nothing of the old contents is left -/
+def fill (_ : List Int) (v : Int) : List Int := [v]
+
+/-- a started native goroutine runs: it reads its arguments now. Under `atGo` its slice went back
+to the pool at the go statement, so what it reads is whatever that pooled slice holds by now (the
+slice on top of the pool: the one the next `Get` returned and filled). -/
+def deliver (pol : PutPolicy) (sh : Artefact) (l : Run) (p : Pending) (rest : List Pending) :
+    Artefact × Run × List ToyObs :=
+  if pol = .atGo then
+    (sh, { l with inflight := rest }, [.recorded p.f (natFn p.f (slot0 (poolTop sh.pools p.f)))])
+  else
+    (if pol = .afterRead then { sh with pools := poolPut sh.pools p.f p.args } else sh,
+     { l with inflight := rest }, [.recorded p.f (natFn p.f (slot0 p.args))])
 
 /-- one step; `overwrite = false` is the *broken* variant that calls with the slice as it came
-out of the pool -/
-def toyStep (overwrite : Bool) (sh : Artefact) (l : Run) : Artefact × Run × List Int :=
+out of the pool; `pol` says when the slice of a `go` call returns to the pool -/
+def toyStep (overwrite : Bool) (pol : PutPolicy) (sh : Artefact) (l : Run) :
+    Artefact × Run × List ToyObs :=
   match sh.body[l.pc]? with
-  | none => (sh, l, [])
+  | none =>
+    match l.inflight with
+    | [] => (sh, l, [])
+    | p :: rest => deliver pol sh l p rest
+  | some .join =>
+    match l.inflight with
+    | [] => (sh, { l with pc := l.pc + 1 }, [])
+    | p :: rest => deliver pol sh l p rest
   | some (.const r v) => (sh, setReg l r v, [])
   | some (.addv r) => (sh, setReg l r (reg l r + l.input), [])
   | some (.add r q) => (sh, setReg l r (reg l r + reg l q), [])
-  | some (.show r) => (sh, { l with pc := l.pc + 1 }, [reg l r])
+  | some (.show r) => (sh, { l with pc := l.pc + 1 }, [.shown (reg l r)])
   | some (.native f r) =>
     let got := poolGet sh.pools f
     let args := if overwrite then fill got.1 (reg l r) else got.1
     let res := natFn f (slot0 args)
     ({ sh with pools := poolPut got.2 f (fill got.1 (reg l r)) }, setReg l r res, [])
+  | some (.goNative f r) =>
+    let got := poolGet sh.pools f
+    let args := fill got.1 (reg l r)
+    if pol = .atGo then
+      ({ sh with pools := poolPut got.2 f args },
+       { l with pc := l.pc + 1, inflight := l.inflight ++ [⟨f, args⟩] }, [])
+    else
+      ({ sh with pools := got.2 },
+       { l with pc := l.pc + 1, inflight := l.inflight ++ [⟨f, args⟩] }, [])
 
-abbrev toy : Machine := ⟨Artefact, Run, Int, toyStep true⟩
-abbrev toyStale : Machine := ⟨Artefact, Run, Int, toyStep false⟩
+abbrev toy : Machine := ⟨Artefact, Run, ToyObs, toyStep true .never⟩
+abbrev toyAfterRead : Machine := ⟨Artefact, Run, ToyObs, toyStep true .afterRead⟩
+abbrev toyStale : Machine := ⟨Artefact, Run, ToyObs, toyStep false .never⟩
+abbrev toyPutAtGo : Machine := ⟨Artefact, Run, ToyObs, toyStep true .atGo⟩
 
 /-- a fresh run: `NewVM()` + the run's own input -/
-def freshRun (nregs : Nat) (input : Int) : Run := ⟨0, List.replicate nregs 0, input⟩
+def freshRun (nregs : Nat) (input : Int) : Run := ⟨0, List.replicate nregs 0, input, []⟩
 
 def toySys (body : List Instr) (npools : Nat) (inputs : List Int) : Sys toy :=
   ⟨⟨body, List.replicate npools []⟩, inputs.map (freshRun 4), []⟩
